@@ -161,6 +161,9 @@ def declare(w):
                    modifies=lambda a, h: [("Reply", a.self, f) for f in ("_result", "_exc", "$has_result", "$has_exc", "$runs", "running", "$owner")]
                    + [("Event", h("Reply", a.self, "_result_ready"), "$set")],
                    cases=[Case("ok", post=run_post)], props=["C09"]))
+    # publication order: whoever is woken by the result event (get / waitfinish) must find the outcome stored
+    w.contracts[f"{GB}:Reply.run"].at_call = {"model:Event.set": lambda a, h0, call, hnow: [
+        ("outcome-stored-before-the-result-event-is-set", z3.Implies(call.self == h0("Reply", a.self, "_result_ready"), z3.Or(hnow("Reply", a.self, "$has_result"), hnow("Reply", a.self, "$has_exc"))))]}
 
     # ghost: calling the task function counts a run; setting the ready event marks the task done
     def count_run(ex, callee, args, kwargs, st, sink, node):
@@ -339,6 +342,9 @@ def declare(w):
                    + [("Event", z3.If(P(h, a.self, "_primary_thread_task") != 0, h("Reply", P(h, a.self, "_primary_thread_task"), "_result_ready"), 0), "$set")],
                    cases=[Case("ok", restype=BOOL, post=tsp_post)], props=["C09", "C14"]))
     w.contracts[f"{GB}:WorkerPool._try_send_to_primary_thread"].held_on_entry = lambda a, h: [h("WorkerPool", a.self, "_running_lock")]
+    # publication order: the primary thread reads the mailbox without the lock as soon as the ready flag is up
+    w.contracts[f"{GB}:WorkerPool._try_send_to_primary_thread"].at_call = {"model:Event.set": lambda a, h0, call, hnow: [
+        ("task-in-the-mailbox-before-the-primary-thread-is-woken", z3.Implies(call.self == P(h0, a.self, "_primary_thread_task_ready"), P(hnow, a.self, "_primary_thread_task") == a.reply))]}
 
     w.add(Contract(f"{GB}:WorkerPool.trigger_shutdown", {"self": REF("WorkerPool")}, requires=has_lock, linearize_at_lock=True,
                    modifies=lambda a, h: POOLMOD(a, h) + [("Event", P(h, a.self, "_primary_thread_task_ready"), "$set")],
@@ -349,6 +355,8 @@ def declare(w):
                                                                           z3.And(P(h2, a.self, "_primary_thread_task") == P(h, a.self, "_primary_thread_task"),
                                                                                  h("Reply", P(h, a.self, "_primary_thread_task"), "running")))])],   # Reply.run clears `running` when the task has finished
                    props=["C09", "C11"]))
+    w.contracts[f"{GB}:WorkerPool.trigger_shutdown"].at_call = {"model:Event.set": lambda a, h0, call, hnow: [
+        ("shutdown-flag-up-before-the-primary-thread-is-woken", z3.Implies(call.self == P(h0, a.self, "_primary_thread_task_ready"), P(hnow, a.self, "_shuttingdown")))]}
 
     def ps_post(a, h, h2, r):
         return [z3.Not(z3.Select(P(h2, a.self, "_running"), a.reply)), runs(h2, a.reply) == runs(h, a.reply) + 1, owner(h2, a.reply) == O_DONE]
